@@ -16,6 +16,7 @@ import (
 	_ "verif/harness/c13"
 	_ "verif/harness/c14"
 	_ "verif/harness/c17"
+	_ "verif/harness/c18"
 	_ "verif/harness/c19"
 	_ "verif/harness/c20"
 )
